@@ -5,7 +5,12 @@ Scenario:  <time ms> <n> <arg>*n <nopts> <opt>*      (args as byte strings incl.
         | :t <k> <g> <n> | :T <ignored 0|1> <g> <n> | :o <0 normal|1 eclipse|2 junit|3 teamcity> | :k <v>      k: 0 -x 1 -sx 2 -xx 3 -xsx
 Observation: :rej <help> <tests run> <printed> | :ok <flags..> <seed> <repeat> <out> <pkg> <group filters> <name filters> <selection of 14 probes> <applied>
   <applied> ::= :skip (repeat count > 6) | :app <outputs created: kind pkg level colour> <listing text> <repetitions: level colour seeds started ran sep>
-  = what recording outputs and 18 recording probe tests see of the real CommandLineTestRunner run on the same vector (harness/C12.cpp)"""
+  = what recording outputs and 18 recording probe tests see of the real CommandLineTestRunner run on the same vector (harness/C12.cpp)
+Second scenario kind, SEQUENCES of vectors given to the static CommandLineTestRunner::RunAllTests(ac, av) in one process on the current registry:
+  :seq <time ms> <np> (<plugin name id> <kind>)*np <fail mask> <k> (<n> <arg>*n)*k (<nopts> <opt>*)*k
+  name id: 0 MemoryLeakPlugin 1 SetPointerPlugin (the runner's own names) 2 ok 3 other 4 px; kind: 0 takes nothing, 1 takes -pok..., 2 takes -px...
+  fail mask: bit i = probe test i of the 18 fails.   Observation: :seq (<call>)* :end|:hang|:died
+  <call> ::= :big | :c <printed 0 neither|1 usage|2 help|3 usage/help and more> <srand calls> <n> ran* <m> plugin-tag*   (tags of the chain after the call)"""
 from vlib import tb
 ID = "C12"
 FLAVOURS = ["asan"]
@@ -21,12 +26,20 @@ RULE = ("(a) meaning: sequences of 0-8 documented options (single-option vectors
         "without seed, -o kinds, -k, filters over the 18 runner probes incl. the 4 ignored ones), shuffled order, with forced combinations: "
         "-v and -vv both present (each 1-3 times, any order), -b with a repeat count >= 2, list mode with -r/-b/-s/-v, -ri with filters that "
         "select ignored probes, -p with -r, junit with/without verbosity and -k; every accepted vector with repeat count <= 6 is run through "
-        "the real runner.  "
+        "the real runner.  (d) sequences: 1-6 vectors handed one after the other to the static CommandLineTestRunner::RunAllTests in one "
+        "(forked) process on the current registry, with 0-3 user plugins installed beforehand (taking -pok..., -px..., nothing; now and then "
+        "named like the runner's own plugins) and a mask of failing probe tests: rejected vectors (unknown option, -h, bad -o/-t/-s values, junk), "
+        "plugin options -p<x> alone and among other options, documented vectors that run tests (annotated; -b, -ri, -r2..3, filters that "
+        "select nothing, list modes), the same vector again later; forced patterns: rejected then -p<x>, rejected then a run, a run with "
+        "failing tests then -p<x> / a run / a rejected vector, a clean run then the others, one vector three times, -h then a rejected "
+        "vector, two runs with different repeat counts.  "
         "non-trivial = at least one argument after argv[0]")
 ASSUMPTIONS = ["arguments are C strings (no NUL inside)",
                "no argument starts (after blanks and a sign, also counted from its third character) with more than 9 digits: AtoI's int would overflow (atoi's contract); the same bound is put on the digits AtoU reads, so its wrap-around is not exercised",
                "an argument is shorter than 4 GiB",
-               "LP64; the plugin passed to parse() accepts exactly the arguments starting with -pok"]
+               "LP64; the plugin passed to parse() accepts exactly the arguments starting with -pok",
+               "sequences: the user's plugins take exactly the arguments starting with -pok / -px (by kind) and do nothing else; 'the registry as it found it' is judged on the plugin chain (identity and order of the installed plugins); when a user plugin carries one of the two names the runner removes its own plugins by, only 'nothing of the runner is left' is judged",
+               "sequences: a vector asking for more than 6 repetitions is not handed to the runner (observation :big)"]
 
 FLAGS = [":h", ":v", ":vv", ":c", ":p", ":b", ":lg", ":ln", ":ll", ":ri", ":f", ":e", ":ci"]
 FLAG_TEXT = {":h": "-h", ":v": "-v", ":vv": "-vv", ":c": "-c", ":p": "-p", ":b": "-b", ":lg": "-lg", ":ln": "-ln", ":ll": "-ll",
@@ -299,6 +312,132 @@ def safety_scenario(rng):
     return line_clean(rng.choice(TIMES), argv)
 
 
+# ------------------------------------------------------------------ sequences through the static RunAllTests(ac, av)
+REJECTED = [[b"-zz"], [b"-h"], [b"-ounknown"], [b"-o"], [b"-tnodot"], [b"-t", b"a.b.c"], [b"-s0"], [b"-s", b"0"], [b"zz"], [b"-"], [b"-v", b"-h"],
+            [b"-ggrp", b"-q"], [b"-pfoo"], [b"-pno"], [b"-po"], [b"-v", b"-pfoo"], [b"-xq"], [b"-vvv"], [b"-st"], [b"-k"][:1] + [b"x", b"-y"]]
+PLUGIN_OPTS = [b"-pok", b"-pokx", b"-pok=1", b"-px", b"-px1", b"-pfoo", b"-po", b"-pxok", b"-pp", b"-p1"]
+PLUGIN_SETS = [[], [], [], [(2, 1)], [(2, 1)], [(3, 0)], [(4, 2)], [(3, 0), (2, 1)], [(2, 1), (4, 2)], [(4, 2), (3, 0), (2, 1)], [(3, 1), (3, 2)],
+               [(2, 0)], [(3, 0), (3, 0)]]
+CLASH_SETS = [[(0, 0)], [(1, 0)], [(0, 1)], [(2, 1), (1, 0)], [(0, 0), (3, 0), (0, 2)], [(1, 1), (0, 0)]]
+FAIL_MASKS = [0, 0, 1, 2, 0x3ffff, 0x10, 0x8000, 0x401, 0x2a5a5]
+
+
+def seq_line(tm, plugins, mask, calls):
+    """calls: list of (argv, opts)"""
+    t = [":seq", "%x" % tm, "%x" % len(plugins)] + ["%x %x" % p for p in plugins] + ["%x" % mask, "%x" % len(calls)]
+    for argv, _ in calls:
+        t += ["%x" % len(argv)] + [tb(a) for a in argv]
+    for _, opts in calls:
+        t += ["%x" % len(opts)] + list(opts)
+    return " ".join(" ".join(t).split())
+
+
+def seq_run_vector(rng):
+    """a documented vector the runner accepts and runs (repeat count <= 6, now and then 7: not handed to the runner)"""
+    picks = [apply_opt(rng) for _ in range(rng.choice([0, 0, 1, 1, 1, 2, 2, 3, 4]))]
+    picks = [p for p in picks if p[0] != ":h" and not (p[0].split()[0] == ":r" and p[0] != ":r ~" and int(unb(p[0].split()[1])) > 7)]
+    c = rng.random()
+    if c < 0.2:
+        picks.append(flag(":b"))
+    elif c < 0.3:
+        picks.append(flag(":ri"))
+    elif c < 0.4:
+        picks.append(rep_opt(rng, 2, 3))
+    elif c < 0.5:
+        picks.append(rng.choice([(":g 0 " + tb(b"nomatch"), [b"-gnomatch"], [b"-g", b"nomatch"]), (":n 1 " + tb(b"zz"), [b"-snzz"], [b"-sn", b"zz"])]))   # nothing runs: non-zero too
+    elif c < 0.55:
+        picks.append(flag(rng.choice([":lg", ":ln", ":ll"])))
+    rng.shuffle(picks)
+    opts, argv = [], [b"prog"]
+    for o, att, sep in picks:
+        opts.append(o)
+        argv += att if rng.random() < 0.5 else sep
+    return argv, opts
+
+
+def seq_vector(rng, earlier):
+    c = rng.random()
+    if earlier and c < 0.25:          # the same vector again: must come out the same
+        return rng.choice(earlier)
+    if c < 0.45:
+        return [b"prog"] + list(rng.choice(REJECTED)), []
+    if c < 0.65:                      # a plugin option, alone or among others
+        a = rng.choice(PLUGIN_OPTS)
+        if rng.random() < 0.6:
+            return [b"prog", a], []
+        extra = rng.choice([[b"-v"], [b"-ggrp"], [b"-r2"], [b"-b"], [b"-zz"], [rng.choice(PLUGIN_OPTS)], [b"-g"]])
+        return ([b"prog", a] + extra if rng.random() < 0.5 else [b"prog"] + extra + [a]), []
+    if c < 0.70:
+        return [tame(a) for a in parse_line(safety_scenario(rng))[1]], []
+    return seq_run_vector(rng)
+
+
+def seq_scenario(rng):
+    plugins = list(rng.choice(CLASH_SETS)) if rng.random() < 0.1 else list(rng.choice(PLUGIN_SETS))
+    mask = rng.choice(FAIL_MASKS) if rng.random() < 0.8 else rng.getrandbits(18)
+    c = rng.random()
+    calls = []
+    rej = lambda: ([b"prog"] + list(rng.choice(REJECTED)), [])
+    plug = lambda: ([b"prog", rng.choice(PLUGIN_OPTS)], [])
+    if c < 0.12:      # a rejected vector, then a plugin option (offered to the whole chain)
+        calls = [rej(), plug()]
+    elif c < 0.22:    # a rejected vector, then a run
+        calls = [rej(), seq_run_vector(rng)]
+    elif c < 0.32:    # a run with failing tests (non-zero for the other reason), then a plugin option / a run / a rejected one
+        mask = mask or rng.choice([1, 0x3ffff, 0x12])
+        calls = [seq_run_vector(rng), rng.choice([plug, rej, lambda: seq_run_vector(rng)])()]
+    elif c < 0.40:    # a clean run (result 0), then the others
+        mask = 0
+        calls = [([b"prog"], []), rng.choice([plug, rej])(), ([b"prog"], [])]
+    elif c < 0.46:    # the same vector three times
+        v = seq_vector(rng, [])
+        calls = [v, v, v]
+    elif c < 0.52:    # help, then a vector that is rejected without asking for help; or the other way round
+        h = ([b"prog"] + rng.choice([[b"-h"], [b"-v", b"-h"], [b"-h", b"-zz"]]), [])
+        calls = [h, rej()] if rng.random() < 0.7 else [rej(), h, rej()]
+    elif c < 0.58:    # two runs asking for different numbers of repetitions / different filters
+        calls = [seq_run_vector(rng), ([b"prog"], []), seq_run_vector(rng)][:rng.choice([2, 3])]
+    while len(calls) < rng.choice([1, 2, 2, 3, 3, 4, 5, 6]):
+        calls.insert(rng.randrange(len(calls) + 1), seq_vector(rng, calls))
+    calls = [([tame(a) for a in argv], opts) for argv, opts in calls[:6]]
+    return seq_line(rng.choice(TIMES) if rng.random() < 0.7 else rng.getrandbits(40), plugins, mask, calls)
+
+
+def parse_seq(s):
+    """-> tm, plugins, mask, calls [(argv, [opt token lists])]"""
+    t = s.split()
+    assert t[0] == ":seq"
+    tm, np_ = int(t[1], 16), int(t[2], 16)
+    plugins = [(int(t[3 + 2 * i], 16), int(t[4 + 2 * i], 16)) for i in range(np_)]
+    i = 3 + 2 * np_
+    mask, k = int(t[i], 16), int(t[i + 1], 16)
+    i += 2
+    vs = []
+    for _ in range(k):
+        n = int(t[i], 16)
+        vs.append([bytes.fromhex(x[1:]) for x in t[i + 1:i + 1 + n]])
+        i += 1 + n
+    anns = []
+    rest = t[i:]
+    if rest:
+        j = 0
+        for _ in range(k):
+            n = int(rest[j], 16)
+            j += 1
+            cur = []
+            for _o in range(n):
+                ar = OPT_ARITY.get(rest[j], 0)
+                cur.append(rest[j:j + 1 + ar])
+                j += 1 + ar
+            anns.append(cur)
+    else:
+        anns = [[] for _ in vs]
+    return tm, plugins, mask, list(zip(vs, anns))
+
+
+OPT_ARITY = {":r": 1, ":s": 1, ":g": 2, ":n": 2, ":t": 3, ":T": 3, ":o": 1, ":k": 1}
+
+
 def truncations():
     out = []
     for lit in sorted(set(LITERALS)):
@@ -325,6 +464,8 @@ def generate(tier, rng):
         out.append(safety_scenario(rng))
     for _ in range(n if tier == "quick" else n // 2):
         out.append(apply_scenario(rng))
+    for _ in range(1500 if tier == "quick" else 12000):
+        out.append(seq_scenario(rng))
     return out
 
 
@@ -337,10 +478,46 @@ def parse_line(s):
 
 
 def nontrivial(s):
+    if s.startswith(":seq"):
+        return any(len(v) >= 2 for v, _ in parse_seq(s)[3])
     return int(s.split()[1], 16) >= 2
 
 
+def vector_kind(argv):
+    """coarse kind of one vector of a sequence (for the input distribution only)"""
+    args = argv[1:]
+    if any(a.startswith(b"-p") and len(a) > 2 for a in args):
+        return "plugin-option"
+    if any(a in (b"-h",) for a in args):
+        return "help"
+    known = ("-v", "-vv", "-c", "-p", "-b", "-lg", "-ln", "-ll", "-ri", "-f", "-e", "-ci")
+    pref = ("-r", "-g", "-t", "-st", "-xt", "-xst", "-sg", "-xg", "-xsg", "-n", "-sn", "-xn", "-xsn", "-s", "TEST(", "IGNORE_TEST(", "-o", "-k")
+    if all(a.decode("latin1") in known or any(a.startswith(q.encode()) for q in pref) for a in args):
+        return "run?"
+    return "rejected"
+
+
+def classify_seq(s):
+    tm, plugins, mask, calls = parse_seq(s)
+    kinds = [vector_kind(v) for v, _ in calls]
+    lab = ["seq", "seq:calls:%d" % len(calls), "seq:user-plugins:%d" % len(plugins)]
+    if any(n in (0, 1) for n, _ in plugins):
+        lab.append("seq:user plugin named like the runner's")
+    if mask:
+        lab.append("seq:failing tests")
+    for a, b in zip(kinds, kinds[1:]):
+        lab.append("seq:%s then %s" % (a, b))
+    vs = [tuple(v) for v, _ in calls]
+    if len(set(vs)) < len(vs):
+        lab.append("seq:same vector again")
+    if any(o for _, o in calls):
+        lab.append("seq:annotated vector")
+    return sorted(set(lab))
+
+
 def classify(s):
+    if s.startswith(":seq"):
+        return classify_seq(s)
     tm, argv, rest = parse_line(s)
     lab = ["ac:%d" % min(len(argv), 12)]
     nopts = int(rest[0], 16) if rest else 0
@@ -368,7 +545,55 @@ def classify(s):
     return sorted(set(lab))
 
 
+def seq_calls(o):
+    """observation of a sequence -> ([None for :big | (printed, seeds, ran, tags)], finish)"""
+    t = o.split()
+    i, calls = 1, []
+    while i < len(t) and t[i] in (":c", ":big"):
+        if t[i] == ":big":
+            calls.append(None)
+            i += 1
+            continue
+        pr, seeds, n = t[i + 1], int(t[i + 2], 16), int(t[i + 3], 16)
+        ran = t[i + 4:i + 4 + n]
+        i += 4 + n
+        m = int(t[i], 16)
+        tags = t[i + 1:i + 1 + m]
+        i += 1 + m
+        calls.append((pr, seeds, ran, tags))
+    return calls, (t[i] if i < len(t) else "?")
+
+
+def signature_seq(s, o):
+    if o.startswith("!"):
+        return "sequence: crash " + o[:70]
+    try:
+        tm, plugins, mask, vs = parse_seq(s)
+        calls, fin = seq_calls(o)
+        k = len(calls)
+        kind = vector_kind(vs[k][0]) if k < len(vs) else "?"
+        if fin == ":hang":
+            return "sequence: a call does not return (%s vector, after %d call(s))" % (kind, k)
+        if fin != ":end":
+            return "sequence: the process died in a call (%s vector, after %d call(s))" % (kind, k)
+        init = ["%x" % (i + 1) for i in range(len(plugins))]
+        for c in calls:
+            if c and "0" in c[3]:
+                return "sequence: a plugin of the runner is still installed after the call returned"
+        for c in calls:
+            if c and c[3] != init and not any(n in (0, 1) for n, _ in plugins):
+                return "sequence: the user's plugins are not as before the call"
+        for c in calls:
+            if c and (c[0] == "3" or (c[0] in ("1", "2") and c[2])):
+                return "sequence: a rejected vector is not rejected cleanly"
+        return "sequence: a vector is accepted / rejected / run differently from what it says or from the same vector earlier"
+    except (ValueError, IndexError):
+        return "sequence: unreadable observation"
+
+
 def signature(s, o):
+    if s.startswith(":seq"):
+        return signature_seq(s, o)
     tm, argv, rest = parse_line(s)
     if o.startswith("!"):
         return "crash " + o[:70]
@@ -435,7 +660,35 @@ def applied_aspect(o):
         return "unreadable"
 
 
+def shrink_seq(s):
+    tm, plugins, mask, calls = parse_seq(s)
+    calls = [(v, [" ".join(o) for o in a]) for v, a in calls]
+    for i in range(len(calls)):                       # one call less
+        yield seq_line(tm, plugins, mask, calls[:i] + calls[i + 1:])
+    for i in range(len(plugins)):                     # one plugin less
+        yield seq_line(tm, plugins[:i] + plugins[i + 1:], mask, calls)
+    if mask:
+        yield seq_line(tm, plugins, 0, calls)
+        for b in range(18):
+            if mask >> b & 1 and mask != 1 << b:
+                yield seq_line(tm, plugins, mask & ~(1 << b), calls)
+    if tm != 5:
+        yield seq_line(5, plugins, mask, calls)
+    for i, (v, a) in enumerate(calls):
+        if a:                                         # without the annotation
+            yield seq_line(tm, plugins, mask, calls[:i] + [(v, [])] + calls[i + 1:])
+        for j in range(1, len(v)):                    # one argument less (the annotation no longer holds)
+            yield seq_line(tm, plugins, mask, calls[:i] + [(v[:j] + v[j + 1:], [])] + calls[i + 1:])
+    for i, (v, a) in enumerate(calls):
+        for j in range(1, len(v)):
+            for k in range(len(v[j])):
+                yield seq_line(tm, plugins, mask, calls[:i] + [(v[:j] + [v[j][:k] + v[j][k + 1:]] + v[j + 1:], [])] + calls[i + 1:])
+
+
 def shrink(s):
+    if s.startswith(":seq"):
+        yield from shrink_seq(s)
+        return
     tm, argv, rest = parse_line(s)
     nopts = int(rest[0], 16) if rest else 0
     if nopts == 0:
@@ -462,6 +715,8 @@ def project(o, flavour):
     """the order in which a shuffled repetition runs its tests is not part of the observation compared between model and code
     (the model's shuffle is the identity; spec asks for a permutation of the selected tests): ids of a repetition that called srand are sorted"""
     t = o.split()
+    if t and t[0] == ":seq":
+        return project_seq(o)
     if ":app" not in t:
         return o
     try:
@@ -481,6 +736,26 @@ def project(o, flavour):
                     t[i + 1:i + 1 + n] = sorted(t[i + 1:i + 1 + n], key=lambda x: int(x, 16))
                 i += 1 + n
         return " ".join(t)
+    except (ValueError, IndexError):
+        return o
+
+
+def project_seq(o):
+    """once a call of the sequence has shuffled the registry (srand called), the order of the tests in that call and in every later one
+    is the shuffle's business (C02): their ran lists are compared sorted"""
+    try:
+        calls, fin = seq_calls(o)
+        out, shuffled = [":seq"], False
+        for c in calls:
+            if c is None:
+                out.append(":big")
+                continue
+            pr, seeds, ran, tags = c
+            shuffled = shuffled or seeds > 0
+            if shuffled:
+                ran = sorted(ran, key=lambda x: int(x, 16))
+            out += [":c", pr, "%x" % seeds, "%x" % len(ran)] + ran + ["%x" % len(tags)] + tags
+        return " ".join(out + [fin])
     except (ValueError, IndexError):
         return o
 
@@ -545,7 +820,16 @@ LEVEL_TEXT = ("Machine-checked (Coq) theorems over an executable model of Comman
               "output is of the configured kind with the package name, list modes print their listing and run nothing, srand gets the configured "
               "seed.  Tied to the code by a "
               "differential run on exact-size heap argv under ASan/UBSan with the extracted spec as judge; every accepted vector (repeat count "
-              "<= 6) is also run through the real CommandLineTestRunner with recording outputs, recording probe tests and a logging srand.")
+              "<= 6) is also run through the real CommandLineTestRunner with recording outputs, recording probe tests and a logging srand.  "
+              "(7) sequences of vectors through the static RunAllTests(ac, av) on the current registry, the plugin chain and the registry being state "
+              "of the model across the calls (install leak plugin, install pointer plugin, parse with the chain as it is, run on the registry as it "
+              "is, remove both by name): every call returns; the chain after a call is the chain before it -- accepted, rejected, tests failing, "
+              "nothing selected: whatever the result (proved for every state; the early-return runner of red team C12-2 is refuted); after ANY "
+              "sequence of earlier calls and with ANY user plugins a documented vector is rejected with help or accepted and runs the selected "
+              "tests as often as asked (documented options are never handed to the plugin chain), a -p<x> vector is accepted exactly when a "
+              "user plugin takes it, and the same vector has the same outcome.  Tied to the code by running every sequence in a forked child "
+              "(CPU-time limit + alarm: a call that does not return is an observation, not a wait) with the real console output captured at the "
+              "PlatformSpecificFPuts seam, 18 probe tests some of which fail, user plugins, and a walk of the plugin chain after every call.")
 LEVEL_NOTE = ("Partial for memory safety: the Coq statement is about the bounds-checked model (Oob/NoFuel/Ub are results it can return and "
               "provably does not); real heap accesses are seen only by the sanitizers on the generated vectors. Trusted: Coq kernel, "
               "extraction, harness, generator, tools/gen/C12.py (dispatch chain, output names, help sentences by anchored regexes). "
@@ -555,6 +839,9 @@ LEVEL_NOTE = ("Partial for memory safety: the Coq statement is about the bounds-
               "them -- two -xg therefore do not both exclude); of the runner: the order after a shuffle (the model's shuffle is the identity, "
               "the oracle asks for a permutation of the selected tests and the configured seed at srand; C02 models the permutation), repeat "
               "counts above 6 (not run), -f/-e/-ci (parsed, not observed at the runner), what the real Console/JUnit/TeamCity outputs print "
-              "(C16/C20), failure counting and exit value (C01).")
+              "(C16/C20), failure counting and exit value (C01); in sequences: the registry's sticky switches (-ri, -p stay on, -b / -s leave "
+              "the order changed for the next call: modelled as the code does, the oracle only fixes the tests that are not IGNORE_TESTs and, "
+              "under -ri, all of them), crash-on-fail (-f stays on in the library; the crash method is a no-op in the harness), what the "
+              "leak plugin reports, user plugins that act on tests.")
 TECHNIQUE = "Coq proof over hand-written executable models (list level + bounds-checked buffer level) driven by source-extracted dispatch/help tables + differential check under sanitizers"
 READY = True
